@@ -159,10 +159,21 @@ func c15SortedFlag(c *Ctx, prop string) {
 			ok := len(stores) > 0
 			why := fmt.Sprintf("%d stores to sorted", len(stores))
 			for _, st := range stores {
-				if k, isK := st.Val.(*ssa.Const); isK && k.Value != nil && k.Value.String() == "false" {
-					continue
-				}
 				deps := backSliceCtl(st.Val)
+				if k, isK := st.Val.(*ssa.Const); isK && k.Value != nil && k.Value.String() == "false" {
+					// "not sorted any more", stored unconditionally — or under a condition, which then decides whether
+					// the mark is KEPT: it has to look at the list that is appended to, not at the other one
+					conds := controlConds(st.Block())
+					if len(conds) == 0 {
+						continue
+					}
+					deps = map[ssa.Value]bool{}
+					for _, cv := range conds {
+						for v := range backSlice(cv, nil) {
+							deps[v] = true
+						}
+					}
+				}
 				// through calls on the lists: receivers/arguments are part of the slice already
 				usesOwn, usesOther := false, false
 				for v := range deps {
